@@ -608,6 +608,18 @@ var ruleSCC = &core.Rule{ID: "R16.1", Min: 2,
 							}
 						}
 					}
+					// or upwards: the receiver's parent, under the test that there is one (the parent chain is finite and
+					// acyclic: R03.1, R14.1, R06.3)
+					if base, fld, isLd := core.LoadOfField(arg); !good && isLd && fld == tm.FParent && len(f.Params) > 0 && base == ssa.Value(f.Params[0]) {
+						for _, de := range core.DominatingConds(ci.Block()) {
+							cond, val := core.StripNot(de.Cond, de.Val)
+							if bo, isBo := cond.(*ssa.BinOp); isBo && core.IsNilConst(bo.Y) && ((bo.Op == token.NEQ && val) || (bo.Op == token.EQL && !val)) {
+								if b2, f2, isLd2 := core.LoadOfField(bo.X); isLd2 && f2 == tm.FParent && b2 == ssa.Value(f.Params[0]) {
+									good = true
+								}
+							}
+						}
+					}
 					if !good {
 						ok = false
 						why = "a recursive call whose receiver is not an element of the current node's children: depth is not bounded by the tree"
